@@ -16,7 +16,7 @@ ASSUMPTIONS = ['rule field descriptors align with the packet fields (the propert
 def run(rep, tier, seed):
     rnd = rng_for(seed, 'C02')
     b = Batch(rep)
-    npk = 220 if tier == 'quick' else 2500
+    npk = 600 if tier == 'quick' else 5000
     for i in range(npk):
         stack, pkt, st, pd = gen_parsed(rnd, ALL_STACKS[i % len(ALL_STACKS)])
         for j in range(3):
@@ -25,7 +25,7 @@ def run(rep, tier, seed):
             d = rnd.choice([None, None, DI.UP, DI.DOWN])
             case_compress(b, pd, rule, d, klass='compress:' + stack)
         case_compress(b, pd, no_compression_rule(randbits(rnd, rnd.randint(1, 16)), rnd.choice([L, R])), None, klass='no-compression:' + stack)
-    for i in range(400 if tier == 'quick' else 5000):
+    for i in range(1500 if tier == 'quick' else 15000):
         rule, vals = synth_case(rnd)
         pd = synth_pdesc(rule, vals, payload_variants(rnd))
         case_compress(b, pd, rule, None, klass='compress:synthetic')
